@@ -22,8 +22,8 @@ LO, HI = P.get("lo", 0), P.get("hi", 99)
 MODE = P.get("mode", "semantics")  # semantics: plumbing options fixed; plumbing: every option, a small expression/document pool
 PLUMB_E = P.get("plumb_e", [0, 7])
 PLUMB_D = [0, 2]
-NDOCS = P.get("ndocs", 6)
-DOCS = ['{"a": [1, {"a": 1, "b": "x\\u00e9"}], "b c": {"a b": 2}, "k": null}', '[1, 2, {"a": [3, 1e999, NaN], "b": -Infinity}]', '{"a": ', b'{"a": "\xff"}', '"just a string"', ""]
+NDOCS = P.get("ndocs", 7)
+DOCS = ['{"a": [1, {"a": 1, "b": "x\\u00e9"}], "b c": {"a b": 2}, "k": null}', '[1, 2, {"a": [3, 1e999, NaN], "b": -Infinity}]', '{"a": ', b'{"a": "\xff"}', b'\xef\xbb\xbf{"a": [1, {"a": 1}], "k": null}', '"just a string"', ""]
 QUERIES = ["$.a", "$..a", "$[?@.a]", "$.a[?@.a == 1]", "$[?length(@.a) == 2]", "$['b c']", "", "$[", "$[?count(1) == 1]", "$[?nosuch(@.a)]",
            "$[9007199254740992]", "$[?@.a == 'x\\u00e9']", "$.a[1].b", "$[?@.a =~ /[/]", "$[?length(@.*) == 1]",
            "$[?@.a\nand @.b]", "$.a[?@.a == 1\n or @.b]", "$['b c',\n 'k']"]
